@@ -77,4 +77,29 @@ def specWhy (v20 : α) (truthy : α → Bool) (cfg : Cfg α) (md : List (Cert κ
   else if !instantClause cfg now m then some "processed although IssueInstant is more than a day plus skew off"
   else none
 
+/-- Histories on one receiver: every delivered request is judged by `specOk` against the metadata
+    *in force at that step* — the sources of the last reload whose import succeeded (the initial
+    store before any).  Reload steps themselves are not constrained.  `outs` = the observed flags,
+    one per step. -/
+def specHistory (v20 : α) (truthy : α → Bool) :
+    List (Source α κ) → List (Step α κ) → List Bool → Bool
+  | _, [], _ => true
+  | _, _ :: _, [] => false
+  | _, .reload (some new) :: rest, _ :: outs => specHistory v20 truthy new rest outs
+  | srcs, .reload none :: rest, _ :: outs => specHistory v20 truthy srcs rest outs
+  | srcs, .recv r :: rest, p :: outs =>
+    specOk v20 truthy r.cfg (lookupCerts srcs r.issuer) r.now r.msg p && specHistory v20 truthy srcs rest outs
+
+/-- index of the first request of a history that breaks the specification -/
+def specHistoryWhy (v20 : α) (truthy : α → Bool) :
+    List (Source α κ) → List (Step α κ) → List Bool → Nat → Option (Nat × String)
+  | _, [], _, _ => none
+  | _, _ :: _, [], i => some (i, "no outcome reported for this step")
+  | _, .reload (some new) :: rest, _ :: outs, i => specHistoryWhy v20 truthy new rest outs (i + 1)
+  | srcs, .reload none :: rest, _ :: outs, i => specHistoryWhy v20 truthy srcs rest outs (i + 1)
+  | srcs, .recv r :: rest, p :: outs, i =>
+    match specWhy v20 truthy r.cfg (lookupCerts srcs r.issuer) r.now r.msg p with
+    | some w => some (i, w)
+    | none => specHistoryWhy v20 truthy srcs rest outs (i + 1)
+
 end Request
